@@ -36,11 +36,11 @@ var errStore = errors.New("sim: persistence fault")
 
 // simStore is a logging, fault-injecting Persistence (a copying map).
 type simStore struct {
-	mu                  sync.Mutex
-	m                   map[uint][]byte
-	log                 *eventLog
-	fSave, fDel, fLoad  bool
-	alias               bool // Load hands out the internal buffer, like the package's own in-memory map
+	mu                 sync.Mutex
+	m                  map[uint][]byte
+	log                *eventLog
+	fSave, fDel, fLoad bool
+	alias              bool // Load hands out the internal buffer, like the package's own in-memory map
 }
 
 func newSimStore(log *eventLog) *simStore { return &simStore{m: map[uint][]byte{}, log: log} }
@@ -142,13 +142,14 @@ type chunk struct {
 
 // simConn is a scripted net.Conn.
 type simConn struct {
-	id     int
-	log    *eventLog
-	mu     sync.Mutex
-	cond   *sync.Cond
-	inq    []chunk
-	policy []wpol
-	closed bool
+	id      int
+	log     *eventLog
+	mu      sync.Mutex
+	cond    *sync.Cond
+	inq     []chunk
+	policy  []wpol
+	closed  bool
+	release *wpol // outcome the script opened the write gate with
 }
 
 func newSimConn(id int, log *eventLog) *simConn {
@@ -160,6 +161,14 @@ func newSimConn(id int, log *eventLog) *simConn {
 func (c *simConn) feed(cs ...chunk) {
 	c.mu.Lock()
 	c.inq = append(c.inq, cs...)
+	c.cond.Broadcast()
+	c.mu.Unlock()
+}
+
+// openGate lets a Write that is blocked at a gate go on with the given outcome.
+func (c *simConn) openGate(o wpol) {
+	c.mu.Lock()
+	c.release = &o
 	c.cond.Broadcast()
 	c.mu.Unlock()
 }
@@ -218,6 +227,21 @@ func (c *simConn) Write(p []byte) (int, error) {
 		return 0, nil // writing nothing succeeds and tells nothing about the connection
 	}
 	n, out := len(p), "ok"
+	for len(c.policy) > 0 && c.policy[0].out == "gate" {
+		// blocks until the script opens the gate or the connection is closed
+		if c.release != nil {
+			c.policy[0] = *c.release
+			c.release = nil
+			if c.policy[0].out == "ok" {
+				c.policy = c.policy[1:]
+			}
+			break
+		}
+		c.cond.Wait()
+		if c.closed {
+			return 0, net.ErrClosed
+		}
+	}
 	if len(c.policy) > 0 {
 		e := c.policy[0]
 		c.policy = c.policy[1:]
